@@ -705,9 +705,35 @@ pub fn check_convergence(r: &Runner, out: &mut Outcome, step_no: usize, grew: &B
     let tolerated = r.world.shadow_tolerated();
     let failed_extra = r.world.shadow_failed_extra();
     let mut checked = 0;
+    let attempts = r.reload_attempts();
     for key in r.cached() {
         let (kind, id) = &key;
-        if !kind.type_reloadable() || !affected_now.contains(&key) {
+        if !kind.type_reloadable() {
+            continue;
+        }
+        // an asset whose latest load looked up (kind, id) - successfully or not: the look-up itself is the recorded
+        // dependency - is reloaded whenever that entry is reloaded
+        if grew.get(&key).copied().unwrap_or(0) == 0 && r.values_before.contains_key(&key) {
+            if let Some(ds) = deps_before.get(&(tag, key.clone())) {
+                for d in ds {
+                    if let Dep::Asset(dk, di) = d {
+                        let dkey = (*dk, di.clone());
+                        if dkey == key || grew.get(&dkey).copied().unwrap_or(0) == 0 {
+                            continue;
+                        }
+                        let attempted = failed_extra.get(&(tag, key.clone())).map_or(false, |s| !s.is_empty()) || attempts.iter().any(|p| p.iter().any(|(k, _)| k == &key));
+                        if !attempted {
+                            out.fail(
+                                "dependent-not-reloaded",
+                                format!("step {step_no}: {kind:?} {id:?} looked up {dk:?} {di:?} in its latest load (a recorded dependency, whatever that look-up returned); {dk:?} {di:?} was reloaded in this step but {kind:?} {id:?} was not"),
+                            );
+                            return checked;
+                        }
+                    }
+                }
+            }
+        }
+        if !affected_now.contains(&key) {
             continue;
         }
         let cached = match r.world.cached_value(tag, *kind, id) {
